@@ -56,6 +56,9 @@ where
         should_continue: impl std::ops::Fn() -> bool + Clone,
     ) -> V;
     fn reached_fixed_point(self, old_value: &V, new_value: &V) -> bool;
+    /// What to settle for when `reached_fixed_point` stops the iteration
+    /// although `value` differs from the value of the previous iteration.
+    fn unconverged_value(self, value: V) -> V;
     fn error_value(self) -> V;
 }
 
@@ -272,6 +275,10 @@ where
                     // old answer does not hold for the new one, so it must not
                     // be promoted to the cache together with this goal.
                     self.search_graph.rollback_to(dfn + 1);
+                    // Nor is the new answer final: the next iteration could
+                    // still add solutions that contradict its guidance.
+                    let unconverged = self.search_graph[dfn].solution.clone();
+                    self.search_graph[dfn].solution = solver_stuff.unconverged_value(unconverged);
                 }
                 return *minimums;
             }
